@@ -101,3 +101,22 @@ func (w *patternFlushWriter) Write(p []byte) (n int, err error) {
 
 	return
 }
+
+// flushAfterWriter flushes after every write.
+type flushAfterWriter struct {
+	w io.Writer
+	f flusher
+}
+
+func (w flushAfterWriter) Write(p []byte) (n int, err error) {
+	n, err = w.w.Write(p)
+	if err != nil {
+		return
+	}
+	err = w.f.Flush()
+	return
+}
+
+func chunkedEncoding(te []string) bool {
+	return len(te) > 0 && te[0] == "chunked"
+}
